@@ -81,11 +81,11 @@ var props = map[string]*propSpec{
 	},
 	"C04": {
 		Level:       "exploration",
-		Rule:        "seeded batches (with synonyms / vectors) x chunk modes x build tags: Persist vs WriteTo bytes, independent footer parse + IEEE CRC-32 over all preceding bytes, footer accessors, and the full query surface (postings, dictionary iteration, stored, ids, doc values, thesauri, vectors) of both the in-memory and the re-opened segment against the model; distinct = (batch fingerprint, chunk mode); non-trivial = >= 2 documents and a multi-document term",
+		Rule:        "seeded batches (with synonyms / vectors) x chunk modes x build tags: Persist vs WriteTo bytes, independent footer parse + IEEE CRC-32 over all preceding bytes, footer accessors, eight segments emitted at the same time (WriteTo and Persist, each image compared with the one the segment emitted alone), and the full query surface (postings, dictionary iteration, stored, ids, doc values, thesauri, vectors) of both the in-memory and the re-opened segment against the model; distinct = (batch fingerprint, chunk mode); non-trivial = >= 2 documents and a multi-document term",
 		Assumptions: commonAssumptions,
 		Runs:        simple("C04", "plain", "vec"),
-		Min: mins(map[string]int64{"files_compared": 300, "footers_checked": 300},
-			map[string]int64{"files_compared": 5000, "footers_checked": 5000}),
+		Min: mins(map[string]int64{"files_compared": 300, "footers_checked": 300, "rounds_of_simultaneous_emission": 20},
+			map[string]int64{"files_compared": 5000, "footers_checked": 5000, "rounds_of_simultaneous_emission": 300}),
 	},
 }
 
@@ -111,8 +111,8 @@ func init() {
 		Rule:        "the merge plans of C05 over batches with synonym documents (1-3 thesauri, explicit and equivalence definitions, shared synonyms, empty left-hand term); oracle on every merge output: thesaurus term lists, (synonym, document) pair sets under exclusion bitmaps {nil, empty, each defining doc, all}, Contains, unknown names/terms; classes counted: thesaurus in >= 2 inputs, in some inputs only, all definitions deleted, merged-of-merged",
 		Assumptions: commonAssumptions,
 		Runs:        simple("C13", "plain"),
-		Min: mins(map[string]int64{"merges": 300, "syn_pairs_compared": 5000, "thesauri_from_2plus_inputs": 100, "thesauri_in_some_inputs_only": 50, "thesauri_all_definitions_deleted": 10, "thesauri_merged_of_merged": 20},
-			map[string]int64{"merges": 4000, "syn_pairs_compared": 80000, "thesauri_from_2plus_inputs": 1500, "thesauri_in_some_inputs_only": 700, "thesauri_all_definitions_deleted": 150, "thesauri_merged_of_merged": 300}),
+		Min: mins(map[string]int64{"merges": 300, "syn_pairs_compared": 5000, "thesauri_from_2plus_inputs": 100, "thesauri_in_some_inputs_only": 50, "thesauri_all_definitions_deleted": 10, "thesauri_merged_of_merged": 20, "leaves_twin_with_thinned_synonyms": 30},
+			map[string]int64{"merges": 4000, "syn_pairs_compared": 80000, "thesauri_from_2plus_inputs": 1500, "thesauri_in_some_inputs_only": 700, "thesauri_all_definitions_deleted": 150, "thesauri_merged_of_merged": 300, "leaves_twin_with_thinned_synonyms": 400}),
 	}
 }
 
@@ -151,7 +151,7 @@ func init() {
 		Rule:        "seeded batches mixing ordinary and synonym documents (1-3 thesauri, explicit left-hand sides and equivalence groups, shared synonyms, the same term defined by several documents, empty left-hand term, 1-2 synonym fields per document) x chunk modes; for every thesaurus (+ unknown names, ordinary field names): sorted term list, a key range, Contains; for every term (+ unknown) x exclusion bitmaps {nil, empty, each defining doc, all, 3 seeded subsets}: the set of (synonym, document) pairs, alternately with fresh and recycled list/iterator objects; in memory and after persist+open; synonym fields have empty dictionaries; distinct = batch fingerprint; non-trivial = >= 2 documents and >= 1 thesaurus",
 		Assumptions: commonAssumptions,
 		Runs:        simple("C12", "plain", "vec"),
-		Min: mins(map[string]int64{"syn_lookups": 20000, "syn_pairs_compared": 20000, "thes_terms_defined_by_2plus_docs": 200, "thes_prealloc_reuse": 5000},
+		Min: mins(map[string]int64{"syn_lookups": 20000, "syn_pairs_compared": 20000, "thes_terms_defined_by_2plus_docs": 200, "thes_prealloc_reuse": 5000, "syn_lookups_through_a_reused_key_buffer": 20000},
 			map[string]int64{"syn_lookups": 300000, "syn_pairs_compared": 300000, "thes_terms_defined_by_2plus_docs": 3000, "thes_prealloc_reuse": 80000}),
 	}
 }
@@ -258,12 +258,12 @@ func init() {
 		Rule:        "the merge plans of C05 over batches with vector fields (all plan classes; tall plans give >= 1000 surviving vectors, i.e. reconstruct + train of a clustered index); oracle on every merge output: C14's vector oracle against model-merge (survivors' vectors under the new numbering, deleted documents' vectors gone, num_vectors, fields without surviving vectors have no index), engine monitor: no native index or selector alive and no misuse once all segments of the plan are closed; distinct = (leaf fingerprints, mode, steps); non-trivial = an output with >= 2 survivors",
 		Assumptions: vecAssumptions,
 		Runs:        vecRuns("C15", 16),
-		Min: mins(map[string]int64{"merges": 300, "vec_searches": 5000, "engine_quiescence_checks": 300, "plans_class_tall": 8, "vec_results_clustered": 20},
+		Min: mins(map[string]int64{"merges": 300, "vec_searches": 5000, "engine_quiescence_checks": 300, "plans_class_tall": 8, "vec_results_clustered": 20, "leaves_with_9500_or_more_documents_and_vectors": 3},
 			map[string]int64{"merges": 4000, "vec_searches": 80000, "engine_quiescence_checks": 3900}),
 	}
 	props["C16"] = &propSpec{
 		Level:       "exploration",
-		Rule:        "part A (exhaustive=true refers to it): one persisted segment with a vector field; for every ordered pair (e1,e2) of distinct exclusion sets from {none, one doc, half, all} every event sequence of length <= 5 (quick) / 6 (thorough) over {open(e1), open(e2), search(h0), search(h1), filtered-search(h0), close(h0), close(h1), expire (4 synchronous expiry passes through the verif hook)} with at most 2 handles open, on a freshly opened segment per sequence with the cache timer parked; remaining handles are closed, then the segment; oracle per search: exactly C14's answer for that handle's own exclusion set; engine monitor after every event (no use-after-close, no close-during-use, no double close) and after the bounded drain following segment close (no native index alive). Part B (race detector): 8-32 goroutines open/search/close with random exclusion sets while the expiry monitor ticks every 1 ms. distinct = histories / stress rounds",
+		Rule:        "part A (exhaustive=true refers to it): one persisted segment with a vector field; for every ordered pair (e1,e2) of distinct exclusion sets from {none, one doc, half, all} every event sequence of length <= 5 (quick) / 6 (thorough) over {open(e1), open(e2), search(h0), search(h1), filtered-search(h0), close(h0), close(h1), expire (4 synchronous expiry passes through the verif hook)} with at most 2 handles open, on a freshly opened segment per sequence with the cache timer parked; remaining handles are closed, then the segment; oracle per search: exactly C14's answer for that handle's own exclusion set; engine monitor after every event (no use-after-close, no close-during-use, no double close) and after the bounded drain following segment close (no native index alive). Part A2: batches with >= 1000 vectors in a field (clustered index, default search parameters): eight kinds of search (small / full k, sparse / dense eligible set, with and without exclusions) are answered once each by a freshly opened segment, then a random history of 14 such searches and expiry passes on one more opening must give the same answers. Part B (race detector): 8-32 goroutines open/search/close with random exclusion sets while the expiry monitor ticks every 1 ms. distinct = histories / stress rounds",
 		Assumptions: append([]string{"a handle is closed exactly once by its owner and before the segment is closed", "the asynchronous index closers are given a bounded drain; a drain timeout is reported as a leak"}, vecAssumptions...),
 		Runs: func(tier string) []runSpec {
 			return []runSpec{
@@ -271,8 +271,8 @@ func init() {
 				{Workload: "C16c", Flavour: "vecrace", Shards: 8, TimeoutS: tq(tier, 900, 3600)},
 			}
 		},
-		Min: mins(map[string]int64{"c16_histories": 20000, "c16_searches": 20000, "c16_evictions": 500, "c16_reload_after_eviction": 200, "c16_stress_searches": 3000},
-			map[string]int64{"c16_histories": 150000, "c16_searches": 150000, "c16_evictions": 5000, "c16_reload_after_eviction": 3000, "c16_stress_searches": 40000}),
+		Min: mins(map[string]int64{"c16_histories": 20000, "c16_searches": 20000, "c16_evictions": 500, "c16_reload_after_eviction": 200, "c16_stress_searches": 3000, "c16_clustered_histories": 10},
+			map[string]int64{"c16_histories": 150000, "c16_searches": 150000, "c16_evictions": 5000, "c16_reload_after_eviction": 3000, "c16_stress_searches": 40000, "c16_clustered_histories": 100}),
 	}
 	props["C19"] = &propSpec{
 		Level:       "fault_enumeration",
